@@ -1,9 +1,508 @@
 /-
-C12 Constant folding equals circuit evaluation.
+C12  Constant folding equals circuit evaluation.
+
+FULL STATEMENT (`C12_fold_eq_circuit`, NOT provable for the code as it is — see
+the witnesses below):
+
+    for every operator in {+,-,*,/,%,&,|,^,&^,<<,>>,<,<=,>,>=,==,!=,unary -,!},
+    signedness, width N in 1..130 and operand values a, b representable in
+    intN / uintN, written as typed constants:
+      the bits the consumer sees of fold(op, a, b)
+        = circuitOp op (enc a) (enc b)       (the run-time instruction)
+    and folding never crashes the compiler.
+
+What is proved instead (everything about `Model/Fold.lean` + `Model/Mpa.lean`,
+which the check ties to the real compiler line by line on every run):
+
+  * per operator a `_partial` theorem at full generality in the width
+    n ≤ 64, the operand constants (arbitrary `ssa.Value`s, not only the ones
+    the generator writes) and the values, under an explicit hypothesis that
+    names what the small path needs beyond "representable";
+  * `C12_fold_eq_circuit_partial`: the same, packaged over the decidable
+    predicate `hyps` that the check evaluates for every generated case — an
+    oracle failure inside the region `hyps = []` cannot be a known finding;
+  * for every hypothesis a concrete witness (closed computation on the model,
+    replayed on the Go code by `c12 one -extra "<op> <s|u> <n> <a> <b> <aform> <bform>"`)
+    showing that the full statement fails without it;
+  * `C12_no_crash_small` / `C12_crash_wide_witness`: no panic branch of the
+    model is reachable on the small path; on the large path `uint128(5)+uint128(7)`
+    crashes the compiler.
+
+Not covered by theorems: widths above 64 (large path; model correspondence and
+oracle only) and consumers other than `return` (oracle only; the witnesses
+`C12_result_type_widened_witness` and `C12_refold_shr_witness` show the two
+ways a consumer sees more than the low N bits).
 -/
-import MpcVerif.Model.Fold
+import MpcVerif.Proofs.Fold
 
 namespace Mpc
 open Mpc.Mpa Mpc.Fold
+
+/-! ## Reading the hypotheses -/
+
+theorem smallOperand_spec {n : Nat} {c : CV} (h : smallOperand n c = true) :
+    ∃ t v, c = .int t v ∧ 0 < v.bits ∧ v.bits ≤ 64 ∧ n ≤ t.bits ∧ t.bits ≤ 64 := by
+  cases c with
+  | bool b => simp [smallOperand] at h
+  | int t v =>
+    simp only [smallOperand, decide_eq_true_eq] at h
+    exact ⟨t, v, rfl, h.1, h.2.1, h.2.2.1, h.2.2.2⟩
+
+theorem sameKind_spec {lt rt : TInfo} {lv rv : MInt} (h : sameKind (.int lt lv) (.int rt rv) = true) :
+    lt.kind = rt.kind := by
+  simpa [sameKind] using h
+
+/-- Unary minus goes through `Unary.Eval` (`negate`), every binary operator through `Binary.evalConst`. -/
+def foldOp (op : Op) (l r : CV) : Res CV := if op = .neg then negate l else evalBin op l r
+
+/-! ## `-  *  &  |  ^  &^` -/
+
+/-- For every width `0 < n ≤ 64`, every pair of integer constants of the same kind whose `mpa` values are
+small and whose types have between `n` and 64 bits: folding succeeds and the low `n` wires of the folded
+constant are exactly the run-time instruction on the operands' low `n` wires (arithmetic mod 2^n).  The
+result needs at most `Bits(left type)` bits, so it is assignable to the declared type. -/
+theorem C12_fold_wrap_ops (op : Op) (hop : op.isWrap = true) (signed : Bool) (n cnt : Nat) (l r : CV)
+    (hn0 : 0 < n) (hl : smallOperand n l = true) (hr : smallOperand n r = true) (hk : sameKind l r = true) :
+    ∃ t v, evalBin op l r = .ok (.int t v) ∧ v.bits ≤ 64 ∧
+      seenBV n (.int t v) = circuitOp op signed (seenBV n l) (seenBV n r) cnt := by
+  obtain ⟨lt, lv, rfl, _, hlv, hnl, hl64⟩ := smallOperand_spec hl
+  obtain ⟨rt, rv, rfl, _, hrv, hnr, _⟩ := smallOperand_spec hr
+  obtain ⟨t, v, h1, _, _, _, h5, h6⟩ :=
+    fold_wrap op hop signed n cnt lt rt lv rv (sameKind_spec hk) (by omega) hl64 hnl hnr hlv hrv
+  exact ⟨t, v, h1, h5, h6⟩
+
+/-- … and the result is assignable to a declared type of `Bits(left type)` bits (`MinBits ≤ Bits`). -/
+theorem C12_fold_wrap_assignable (op : Op) (hop : op.isWrap = true) (lt rt : TInfo) (lv rv : MInt)
+    (hk : lt.kind = rt.kind) (h0 : 0 < lt.bits) (h64 : lt.bits ≤ 64) (hlv : lv.bits ≤ 64) (hrv : rv.bits ≤ 64) :
+    ∃ t v, evalBin op (.int lt lv) (.int rt rv) = .ok (.int t v) ∧ t.minBits ≤ lt.bits := by
+  obtain ⟨t, v, h1, _, _, h4, _, _⟩ :=
+    fold_wrap op hop true 0 0 lt rt lv rv hk h0 h64 (by omega) (by omega) hlv hrv
+  exact ⟨t, v, h1, h4⟩
+
+-- non-vacuity: int8(-43) - int8(4), uint64(2^64-1) * uint64(3), int33(-5) &^ int33(9) (written -int33(5))
+example : caseHyps .sub .int 8 (-43) 4 .cast .pos = [] := by decide +kernel
+example : caseHyps .mul .uint 64 18446744073709551615 3 .pos .pos = [] := by decide +kernel
+example : caseHyps .bclr .int 33 (-5) 9 .neg .pos = [] := by decide +kernel
+
+/-! ## `+` -/
+
+/-- `Add` masks the sum to `max(x.bits, y.bits)` — the `mpa` sizes (32 or 64) of the operands, not the type
+width.  Under the extra hypothesis `n ≤ max(x.bits, y.bits)` the statement of `C12_fold_wrap_ops` holds. -/
+theorem C12_fold_add_partial (signed : Bool) (n cnt : Nat) (l r : CV) (hn0 : 0 < n)
+    (hl : smallOperand n l = true) (hr : smallOperand n r = true) (hk : sameKind l r = true)
+    (hsize : n ≤ max (mpaBits l) (mpaBits r)) :
+    ∃ t v, evalBin .add l r = .ok (.int t v) ∧ v.bits ≤ 64 ∧
+      seenBV n (.int t v) = circuitOp .add signed (seenBV n l) (seenBV n r) cnt := by
+  obtain ⟨lt, lv, rfl, _, hlv, hnl, hl64⟩ := smallOperand_spec hl
+  obtain ⟨rt, rv, rfl, _, hrv, hnr, _⟩ := smallOperand_spec hr
+  simp only [mpaBits] at hsize
+  rw [evalBin_add lt rt lv rv (sameKind_spec hk) (by omega) hl64 hlv hrv]
+  obtain ⟨t, v, h1, _, _, _, h5, _, _, _, h8⟩ :=
+    seen_const_masked n (max lv.bits rv.bits) lt (lv.small + rv.small) (by omega) hsize hnl
+  refine ⟨t, v, h1, h5, ?_⟩
+  rw [h8, seenBV_small n lt lv hlv hnl, seenBV_small n rt rv hrv hnr]
+  exact BitVec.setWidth_add _ _ (by omega)
+
+/-- Witness that the hypothesis is needed: `uint40(4294967295) + uint40(1)` folds to 0 (both operands are
+sized 32 bits, the carry into bit 32 is masked away); the run-time adder gives 2^32. -/
+theorem C12_add_carry_lost_witness :
+    (foldExpr .add .uint 40 4294967295 1 .pos .pos >>= retSeen .uint 40) = .ok 0 ∧
+    circuitOpNat .add .uint 40 4294967295 1 = 4294967296 ∧
+    caseHyps .add .uint 40 4294967295 1 .pos .pos = ["add-size"] := by
+  decide +kernel
+
+example : caseHyps .add .uint 40 1099511627775 1 .pos .pos = [] := by decide +kernel
+
+/-! ## `<<` -/
+
+/-- Left shift by a constant count: low `n` wires of the folded constant = `x <<< count`. -/
+theorem C12_fold_shl (signed : Bool) (n : Nat) (l : CV) (rt : TInfo) (rv : MInt) (c : BitVec 64) (hn0 : 0 < n)
+    (hl : smallOperand n l = true) (hc : rv.int64 = some c) :
+    ∃ t v, evalBin .shl l (.int rt rv) = .ok (.int t v) ∧ v.bits ≤ 64 ∧
+      seenBV n (.int t v) = circuitOp .shl signed (seenBV n l) (seenBV n (.int rt rv)) c.toNat := by
+  obtain ⟨lt, lv, rfl, _, hlv, hnl, hl64⟩ := smallOperand_spec hl
+  rw [evalBin_shl lt rt lv rv c hc (by omega) hl64]
+  obtain ⟨t, v, h1, _, _, _, h5, _, _, _, h8⟩ :=
+    seen_const_masked n lt.bits lt (lv.small <<< c.toNat) hl64 hnl hnl
+  refine ⟨t, v, h1, h5, ?_⟩
+  rw [h8, seenBV_small n lt lv hlv hnl]
+  exact BitVec.setWidth_shiftLeft_of_le (by omega)
+
+example : caseHyps .shl .int 8 (-128) 9 .cast .pos = [] := by decide +kernel
+
+/-! ## `>>` -/
+
+/-- `Rsh` shifts the `int64` arithmetically.  It agrees with `srshift` (signed) / `rshift` (unsigned) when
+the `int64` is the sign resp. zero extension of the `n` seen bits (`extended`). -/
+theorem C12_fold_shr_partial (signed : Bool) (n : Nat) (l : CV) (rt : TInfo) (rv : MInt) (c : BitVec 64)
+    (hn0 : 0 < n) (hn64 : n ≤ 64) (hl : smallOperand n l = true) (hc : rv.int64 = some c)
+    (hext : extended signed n l = true) :
+    ∃ t v, evalBin .shr l (.int rt rv) = .ok (.int t v) ∧ v.bits ≤ 64 ∧
+      seenBV n (.int t v) = circuitOp .shr signed (seenBV n l) (seenBV n (.int rt rv)) c.toNat := by
+  obtain ⟨lt, lv, rfl, _, hlv, hnl, hl64⟩ := smallOperand_spec hl
+  rw [evalBin_shr lt rt lv rv c hc (by omega) hl64]
+  obtain ⟨t, v, h1, _, _, _, h5, _, _, _, h8⟩ :=
+    seen_const_masked n lt.bits lt (lv.small.sshiftRight c.toNat) hl64 hnl hnl
+  refine ⟨t, v, h1, h5, ?_⟩
+  rw [h8]
+  simp only [circuitOp]
+  cases signed
+  · simp only [extended, Bool.false_eq_true, if_false, Bool.and_eq_true, beq_iff_eq, Bool.not_eq_true'] at hext
+    obtain ⟨he, hm⟩ := hext
+    rw [BitVec.sshiftRight_eq_of_msb_false hm, he]
+    exact setWidth_ushiftRight_zeroExtend n c.toNat _ hn64
+  · simp only [extended, if_true, beq_iff_eq] at hext
+    rw [hext]
+    exact setWidth_sshiftRight_signExtend n c.toNat _ hn64
+
+/-- Witnesses: an unsigned 64-bit value with bit 63 set is a negative `int64` (arithmetic instead of logical
+shift); a negative `int8` written `-int8(2)` is held masked to 8 bits, so its `>>` is logical. -/
+theorem C12_shr_witness :
+    (foldExpr .shr .uint 64 18446744073709551615 32 .pos .pos >>= retSeen .uint 64) = .ok 18446744073709551615 ∧
+    circuitOpNat .shr .uint 64 18446744073709551615 32 = 4294967295 ∧
+    caseHyps .shr .uint 64 18446744073709551615 32 .pos .pos = ["extended"] ∧
+    (foldExpr .shr .int 8 (-2) 1 .neg .pos >>= retSeen .int 8) = .ok 127 ∧
+    circuitOpNat .shr .int 8 (-2) 1 = 255 := by
+  decide +kernel
+
+example : caseHyps .shr .int 64 (-128) 3 .neg .pos = [] := by decide +kernel
+example : caseHyps .shr .uint 64 9223372036854775807 70 .pos .pos = [] := by decide +kernel
+
+/-! ## `/`, `%` -/
+
+/-- `Div` / `Mod` divide the `int64`s (Go: quotient truncated, remainder with the sign of the dividend).
+They agree with the run-time dividers (`udiv/umod`, and `idiv/imod` = truncated quotient and |a| mod |b|)
+when both operands are held exactly as non-negative `int64`s — including a zero divisor, where both sides
+give all ones resp. the dividend. -/
+theorem C12_fold_div_mod_partial (op : Op) (hop : op = .div ∨ op = .mod) (signed : Bool) (n cnt : Nat) (l r : CV)
+    (hn0 : 0 < n) (hn64 : n ≤ 64) (hl : smallOperand n l = true) (hr : smallOperand n r = true)
+    (hk : sameKind l r = true) (hcl : cleanNonneg signed n l = true) (hcr : cleanNonneg signed n r = true) :
+    ∃ t v, evalBin op l r = .ok (.int t v) ∧ v.bits ≤ 64 ∧
+      seenBV n (.int t v) = circuitOp op signed (seenBV n l) (seenBV n r) cnt := by
+  obtain ⟨lt, lv, rfl, _, hlv, hnl, hl64⟩ := smallOperand_spec hl
+  obtain ⟨rt, rv, rfl, _, hrv, hnr, _⟩ := smallOperand_spec hr
+  simp only [cleanNonneg, Bool.and_eq_true, beq_iff_eq, Bool.not_eq_true', Bool.or_eq_true] at hcl hcr
+  obtain ⟨⟨hle, hlm⟩, hls⟩ := hcl
+  obtain ⟨⟨hre, hrm⟩, hrs⟩ := hcr
+  have ha : signed = true → (seenBV n (CV.int lt lv)).msb = false := by
+    intro h; cases hls with
+    | inl h' => rw [h] at h'; exact absurd h' (by decide)
+    | inr h' => exact h'
+  have hb : signed = true → (seenBV n (CV.int rt rv)).msb = false := by
+    intro h; cases hrs with
+    | inl h' => rw [h] at h'; exact absurd h' (by decide)
+    | inr h' => exact h'
+  obtain ⟨hcd, hcm⟩ := circuit_div_nonneg signed _ _ ha hb cnt
+  have hcore := div_core (seenBV n (CV.int lt lv)) (seenBV n (CV.int rt rv)) hn64 (hle ▸ hlm) (hre ▸ hrm)
+  rw [← hle, ← hre] at hcore
+  cases hop with
+  | inl h =>
+    subst h
+    rw [evalBin_div lt rt lv rv (sameKind_spec hk) (by omega) hl64]
+    obtain ⟨t, v, h1, _, _, _, h5, _, _, _, h8⟩ := seen_const_masked n lt.bits lt
+      (if rv.small = 0#64 then BitVec.allOnes 64 else lv.small.sdiv rv.small) hl64 hnl hnl
+    exact ⟨t, v, h1, h5, by rw [h8, hcd]; exact hcore.1⟩
+  | inr h =>
+    subst h
+    rw [evalBin_mod lt rt lv rv (sameKind_spec hk) (by omega) hl64]
+    obtain ⟨t, v, h1, _, _, _, h5, _, _, _, h8⟩ := seen_const_masked n lt.bits lt
+      (if rv.small = 0#64 then lv.small else lv.small.srem rv.small) hl64 hnl hnl
+    exact ⟨t, v, h1, h5, by rw [h8, hcm]; exact hcore.2⟩
+
+/-- Witnesses (the defect the design reproduced by hand, re-derived by the oracle on the real compiler):
+`int32(-43)/int32(4)` folds to 1073741813, the run-time `idiv` gives -10; `int8(-43)%int8(4)` folds to 1, the
+run-time `imod` gives 3 — the small path divides the MASKED (zero-extended) operands.  Also an unsigned 64-bit
+operand with bit 63 set is divided as a negative `int64`. -/
+theorem C12_div_mod_masked_operands_witness :
+    (foldExpr .div .int 32 (-43) 4 .cast .pos >>= retSeen .int 32) = .ok 1073741813 ∧
+    circuitOpNat .div .int 32 (-43) 4 = 4294967286 ∧
+    caseHyps .div .int 32 (-43) 4 .cast .pos = ["nonneg-exact"] ∧
+    (foldExpr .mod .int 8 (-43) 4 .cast .pos >>= retSeen .int 8) = .ok 1 ∧
+    circuitOpNat .mod .int 8 (-43) 4 = 3 ∧
+    (foldExpr .div .uint 64 9223372036854775808 2 .pos .pos >>= retSeen .uint 64) = .ok 13835058055282163712 ∧
+    circuitOpNat .div .uint 64 9223372036854775808 2 = 4611686018427387904 := by
+  decide +kernel
+
+example : caseHyps .div .int 32 43 4 .pos .pos = [] := by decide +kernel
+example : caseHyps .mod .uint 8 255 0 .pos .pos = [] := by decide +kernel
+
+/-! ## Comparisons -/
+
+/-- `Cmp` compares `Int64()`, whose sign comes from the `mpa` size (32/64), not from the type.  When
+`Int64()` of both operands is the typed value the folded boolean is the run-time comparator's output. -/
+theorem C12_fold_cmp_partial (op : Op) (hop : op.isCmp = true) (signed : Bool) (n : Nat) (l r : CV)
+    (hl : smallOperand n l = true) (hr : smallOperand n r = true)
+    (hil : int64Agrees signed n l = true) (hir : int64Agrees signed n r = true) :
+    evalBin op l r = .ok (.bool (circuitCmp op signed (seenBV n l) (seenBV n r))) := by
+  obtain ⟨lt, lv, rfl, _, hlv, _, _⟩ := smallOperand_spec hl
+  obtain ⟨rt, rv, rfl, _, hrv, _, _⟩ := smallOperand_spec hr
+  simp only [int64Agrees] at hil hir
+  cases ha : lv.int64 with
+  | none => simp [ha] at hil
+  | some a =>
+    cases hb : rv.int64 with
+    | none => simp [hb] at hir
+    | some b =>
+      rw [evalBin_cmp op hop lt rt lv rv hlv hrv a b ha hb]
+      simp only [ha, hb] at hil hir
+      cases signed
+      · simp only [Bool.false_eq_true, if_false, beq_iff_eq] at hil hir
+        rw [hil, hir, cmpResult_unsigned op hop]
+      · simp only [if_true, beq_iff_eq] at hil hir
+        rw [hil, hir, cmpResult_signed op hop]
+
+/-- Witnesses: `uint64(3000000000) < uint64(5)` folds to true (3000000000 is sized 32 bits and read as a
+negative number), `(-int8(2)) >= int8(2)` folds to true (0xFE sized 32 bits is 254). -/
+theorem C12_cmp_sign_from_size_witness :
+    (foldExpr .lt .uint 64 3000000000 5 .pos .pos >>= retSeen .bool 1) = .ok 1 ∧
+    circuitOpNat .lt .uint 64 3000000000 5 = 0 ∧
+    caseHyps .lt .uint 64 3000000000 5 .pos .pos = ["int64"] ∧
+    (foldExpr .ge .int 8 (-2) 2 .neg .pos >>= retSeen .bool 1) = .ok 1 ∧
+    circuitOpNat .ge .int 8 (-2) 2 = 0 := by
+  decide +kernel
+
+example : caseHyps .lt .int 8 (-2) 2 .cast .pos = [] := by decide +kernel
+example : caseHyps .ne .uint 64 9223372036854775807 0 .pos .pos = [] := by decide +kernel
+
+/-! ## Unary minus, boolean operators -/
+
+/-- `-c` for a typed integer constant: low `n` wires = `0 - x` (the `isub $0 x` the compiler emits). -/
+theorem C12_fold_neg (signed : Bool) (n cnt : Nat) (l : CV) (hn0 : 0 < n) (hl : smallOperand n l = true) :
+    ∃ t v, negate l = .ok (.int t v) ∧ v.bits ≤ 64 ∧
+      seenBV n (.int t v) = circuitOp .neg signed (seenBV n l) (seenBV n l) cnt := by
+  obtain ⟨lt, lv, rfl, _, hlv, hnl, hl64⟩ := smallOperand_spec hl
+  rw [negate_small lt lv (by omega) hl64]
+  obtain ⟨t, v, h1, _, _, _, h5, _, _, _, h8⟩ :=
+    seen_const_masked n lt.bits lt (0#64 - lv.small) hl64 hnl hnl
+  refine ⟨t, v, h1, h5, ?_⟩
+  rw [h8, seenBV_small n lt lv hlv hnl]
+  simp only [circuitOp]
+  rw [setWidth_sub' _ _ (by omega)]
+  simp
+
+example : caseHyps .neg .int 8 (-128) 0 .cast .pos = [] := by decide +kernel
+
+/-- `== != && || !` on boolean constants equal the 1-bit instructions, for all values. -/
+theorem C12_fold_bool_ops (a b : Bool) :
+    evalBin .eq (.bool a) (.bool b) = .ok (.bool (circuitBool .eq a b)) ∧
+    evalBin .ne (.bool a) (.bool b) = .ok (.bool (circuitBool .ne a b)) ∧
+    evalBin .land (.bool a) (.bool b) = .ok (.bool (circuitBool .land a b)) ∧
+    evalBin .lor (.bool a) (.bool b) = .ok (.bool (circuitBool .lor a b)) ∧
+    evalNot (.bool a) = .ok (.bool (circuitBool .lnot a b)) := by
+  cases a <;> cases b <;> decide
+
+/-! ## The region the check treats as proved -/
+
+theorem hypsWide_ne_nil (op : Op) (signed : Bool) (n : Nat) (l r : CV) : hypsWide op signed n l r ≠ [] := by
+  unfold hypsWide
+  cases op <;> simp only [] <;> first | (split <;> simp) | simp
+
+theorem ite_nil {name : String} {ok : Bool} (h : (if ok = true then ([] : List String) else [name]) = []) :
+    ok = true := by
+  cases ok <;> simp at h ⊢
+
+/-- `C12_fold_eq_circuit_partial`: whenever the decidable predicate `hyps` (evaluated by the check for every
+generated case on the constants the MODEL builds, the model being compared with the real compiler line by
+line) reports no violated hypothesis, the integer operator `op` folds without error and the low `n` wires of
+the result equal the run-time instruction on the low `n` wires of the operands; comparisons fold to the
+comparator's output.  Missing for the full statement: `n > 64`, and the regions named by `hyps`. -/
+theorem C12_fold_eq_circuit_partial (op : Op) (signed : Bool) (n : Nat) (l r : CV) (cnt : BitVec 64) (hn0 : 0 < n)
+    (hcov : hyps op signed n l r = [])
+    (hcnt : op.isShift = true → (mpaOf r).int64 = some cnt) :
+    (op.isCmp = true → foldOp op l r = .ok (.bool (circuitCmp op signed (seenBV n l) (seenBV n r)))) ∧
+    (op.isCmp = false → ∃ t v, foldOp op l r = .ok (.int t v) ∧
+        seenBV n (.int t v) = circuitOp op signed (seenBV n l) (seenBV n r) cnt.toNat) := by
+  unfold hyps at hcov
+  by_cases hw : n > 64
+  · rw [if_pos hw] at hcov
+    exact absurd hcov (hypsWide_ne_nil _ _ _ _ _)
+  rw [if_neg hw] at hcov
+  have hn64 : n ≤ 64 := by omega
+  simp only [List.append_eq_nil_iff] at hcov
+  obtain ⟨hso, hrest⟩ := hcov
+  have hso := ite_nil hso
+  simp only [Bool.and_eq_true, Bool.or_eq_true, beq_iff_eq] at hso
+  obtain ⟨hl, hr⟩ := hso
+  have wrap : ∀ o : Op, o.isWrap = true → o = op → sameKind l r = true → smallOperand n r = true →
+      (op.isCmp = true → foldOp op l r = .ok (.bool (circuitCmp op signed (seenBV n l) (seenBV n r)))) ∧
+      (op.isCmp = false → ∃ t v, foldOp op l r = .ok (.int t v) ∧
+        seenBV n (.int t v) = circuitOp op signed (seenBV n l) (seenBV n r) cnt.toNat) := by
+    intro o ho heq hk hr'
+    subst heq
+    refine ⟨fun h => ?_, fun _ => ?_⟩
+    · cases o <;> simp [Op.isWrap, Op.isCmp] at ho h
+    · obtain ⟨t, v, h1, _, h3⟩ := C12_fold_wrap_ops o ho signed n cnt.toNat l r hn0 hl hr' hk
+      have hne : o ≠ .neg := by intro h; subst h; simp [Op.isWrap] at ho
+      exact ⟨t, v, by simp [foldOp, hne, h1], h3⟩
+  have cmpc : ∀ o : Op, o.isCmp = true → o = op → smallOperand n r = true →
+      (int64Agrees signed n l && int64Agrees signed n r) = true →
+      (op.isCmp = true → foldOp op l r = .ok (.bool (circuitCmp op signed (seenBV n l) (seenBV n r)))) ∧
+      (op.isCmp = false → ∃ t v, foldOp op l r = .ok (.int t v) ∧
+        seenBV n (.int t v) = circuitOp op signed (seenBV n l) (seenBV n r) cnt.toNat) := by
+    intro o ho heq hr' hi
+    subst heq
+    simp only [Bool.and_eq_true] at hi
+    refine ⟨fun _ => ?_, fun h => ?_⟩
+    · have hne : o ≠ .neg := by intro h; subst h; simp [Op.isCmp] at ho
+      simp only [foldOp, hne, if_false]
+      exact C12_fold_cmp_partial o ho signed n l r hl hr' hi.1 hi.2
+    · rw [ho] at h; exact absurd h (by decide)
+  cases op with
+  | add =>
+    simp only [List.append_eq_nil_iff] at hrest
+    have hsz := ite_nil hrest.1
+    have hk := ite_nil hrest.2
+    simp only [decide_eq_true_eq] at hsz
+    have hr' : smallOperand n r = true := by simpa [Op.isShift] using hr
+    refine ⟨fun h => by simp [Op.isCmp] at h, fun _ => ?_⟩
+    obtain ⟨t, v, h1, _, h3⟩ := C12_fold_add_partial signed n cnt.toNat l r hn0 hl hr' hk hsz
+    exact ⟨t, v, by simp [foldOp, h1], h3⟩
+  | sub => exact wrap .sub rfl rfl (ite_nil hrest) (by simpa [Op.isShift] using hr)
+  | mul => exact wrap .mul rfl rfl (ite_nil hrest) (by simpa [Op.isShift] using hr)
+  | band => exact wrap .band rfl rfl (ite_nil hrest) (by simpa [Op.isShift] using hr)
+  | bor => exact wrap .bor rfl rfl (ite_nil hrest) (by simpa [Op.isShift] using hr)
+  | bxor => exact wrap .bxor rfl rfl (ite_nil hrest) (by simpa [Op.isShift] using hr)
+  | bclr => exact wrap .bclr rfl rfl (ite_nil hrest) (by simpa [Op.isShift] using hr)
+  | div =>
+    simp only [List.append_eq_nil_iff] at hrest
+    have hc := ite_nil hrest.1
+    have hk := ite_nil hrest.2
+    simp only [Bool.and_eq_true] at hc
+    have hr' : smallOperand n r = true := by simpa [Op.isShift] using hr
+    refine ⟨fun h => by simp [Op.isCmp] at h, fun _ => ?_⟩
+    obtain ⟨t, v, h1, _, h3⟩ :=
+      C12_fold_div_mod_partial .div (Or.inl rfl) signed n cnt.toNat l r hn0 hn64 hl hr' hk hc.1 hc.2
+    exact ⟨t, v, by simp [foldOp, h1], h3⟩
+  | mod =>
+    simp only [List.append_eq_nil_iff] at hrest
+    have hc := ite_nil hrest.1
+    have hk := ite_nil hrest.2
+    simp only [Bool.and_eq_true] at hc
+    have hr' : smallOperand n r = true := by simpa [Op.isShift] using hr
+    refine ⟨fun h => by simp [Op.isCmp] at h, fun _ => ?_⟩
+    obtain ⟨t, v, h1, _, h3⟩ :=
+      C12_fold_div_mod_partial .mod (Or.inr rfl) signed n cnt.toNat l r hn0 hn64 hl hr' hk hc.1 hc.2
+    exact ⟨t, v, by simp [foldOp, h1], h3⟩
+  | shl =>
+    have hr' : smallOperand 0 r = true := by simpa [Op.isShift] using hr
+    obtain ⟨rt, rv, rfl, _, _, _, _⟩ := smallOperand_spec hr'
+    refine ⟨fun h => by simp [Op.isCmp] at h, fun _ => ?_⟩
+    obtain ⟨t, v, h1, _, h3⟩ := C12_fold_shl signed n l rt rv cnt hn0 hl (hcnt rfl)
+    exact ⟨t, v, by simp [foldOp, h1], h3⟩
+  | shr =>
+    have hr' : smallOperand 0 r = true := by simpa [Op.isShift] using hr
+    obtain ⟨rt, rv, rfl, _, _, _, _⟩ := smallOperand_spec hr'
+    refine ⟨fun h => by simp [Op.isCmp] at h, fun _ => ?_⟩
+    obtain ⟨t, v, h1, _, h3⟩ := C12_fold_shr_partial signed n l rt rv cnt hn0 hn64 hl (hcnt rfl) (ite_nil hrest)
+    exact ⟨t, v, by simp [foldOp, h1], h3⟩
+  | lt => exact cmpc .lt rfl rfl (by simpa [Op.isShift] using hr) (ite_nil hrest)
+  | le => exact cmpc .le rfl rfl (by simpa [Op.isShift] using hr) (ite_nil hrest)
+  | gt => exact cmpc .gt rfl rfl (by simpa [Op.isShift] using hr) (ite_nil hrest)
+  | ge => exact cmpc .ge rfl rfl (by simpa [Op.isShift] using hr) (ite_nil hrest)
+  | eq => exact cmpc .eq rfl rfl (by simpa [Op.isShift] using hr) (ite_nil hrest)
+  | ne => exact cmpc .ne rfl rfl (by simpa [Op.isShift] using hr) (ite_nil hrest)
+  | neg =>
+    refine ⟨fun h => by simp [Op.isCmp] at h, fun _ => ?_⟩
+    obtain ⟨t, v, h1, _, h3⟩ := C12_fold_neg signed n cnt.toNat l hn0 hl
+    refine ⟨t, v, by simp [foldOp, h1], ?_⟩
+    rw [h3]; simp [circuitOp]
+  | lnot => simp at hrest
+  | land => simp at hrest
+  | lor => simp at hrest
+
+-- non-vacuity: the region is inhabited for every operator (cases the generator produces)
+example : caseHyps .bxor .int 64 (-9223372036854775808) 9223372036854775807 .neg .pos = [] := by decide +kernel
+example : caseHyps .ge .int 16 (-32768) 32767 .cast .pos = [] := by decide +kernel
+
+/-! ## Operands, result type, crashes: witnesses outside the operator theorems -/
+
+/-- A typed negative constant written `T(-v)` is the 32/64-bit folded untyped `-v` with only its type
+changed: `int64(-43)` is seen by every consumer as 4294967253 (so is every operator applied to it), while
+`-int64(43)` is held correctly. -/
+theorem C12_operand_cast_witness :
+    (typedConst .int 64 (-43) .cast >>= retSeen .int 64) = .ok 4294967253 ∧
+    (typedConst .int 64 (-43) .neg >>= retSeen .int 64) = .ok 18446744073709551573 ∧
+    caseHyps .sub .int 64 (-43) 0 .cast .pos = ["operand-value"] := by
+  decide +kernel
+
+/-- The folded result carries `Generator.Constant`'s 32/64-bit type, not the declared one:
+`int8(100)+int8(100)` is the `int32` constant 200.  `return` truncates it to -56 like the run-time adder, a
+width-sensitive consumer (`/ x`, `< x`, `>> 1`) sees +200. -/
+theorem C12_result_type_widened_witness :
+    foldExpr .add .int 8 100 100 .pos .pos =
+      .ok (.int ⟨.int, 32, 8⟩ { bits := 32, i64 := 200#64, big := none }) ∧
+    circuitOpNat .add .int 8 100 100 = 200 ∧ (BitVec.ofNat 8 200).toInt = -56 := by
+  decide +kernel
+
+/-- … and a sum that needs more than `n` bits is rejected when returned: `uint7(1)+uint7(127)` is the
+`uint32` constant 128 with `MinBits = 8 > 7` (compile error "invalid value uint32 for return value uint7"). -/
+theorem C12_result_minbits_witness :
+    (foldExpr .add .uint 7 1 127 .pos .pos >>= retSeen .uint 7) = .error .compileError ∧
+    circuitOpNat .add .uint 7 1 127 = 0 ∧ caseHyps .add .uint 7 1 127 .pos .pos = [] := by
+  decide +kernel
+
+/-- Re-folding: the folded `int32` result -1 is held as 0xFFFFFFFF (masked, not sign-extended), so
+`(int32(2147483646) - int32(2147483647)) >> 1` folds to 0x7FFFFFFF instead of -1. -/
+theorem C12_refold_shr_witness :
+    (do let c ← foldExpr .sub .int 32 2147483646 2147483647 .pos .pos
+        let one ← literal 1
+        evalBin .shr c one >>= retSeen .int 32) = .ok 2147483647 := by
+  decide +kernel
+
+/-- "Folding never crashes": on the small path no operator reaches a panic branch of the model
+(`New(0)`, `setSmall bits > 64`, `Int64` with size 0, `Constant MinBits > Bits`). -/
+theorem C12_no_crash_small (op : Op) (l r : CV) (hl : smallOperand 1 l = true) (hr : smallOperand 0 r = true) :
+    foldOp op l r ≠ .error .panic := by
+  obtain ⟨lt, lv, rfl, hlv0, hlv, hnl, hl64⟩ := smallOperand_spec hl
+  obtain ⟨rt, rv, rfl, hrv0, hrv, _, _⟩ := smallOperand_spec hr
+  have hne : lt.bits ≠ 0 := by omega
+  have hsm : (({ bits := lt.bits } : MInt).isSmall) = true := by simp [MInt.isSmall, hl64]
+  have hm : max lv.bits rv.bits ≤ 64 := by omega
+  have h1 : lv.isSmall = true := by simp [MInt.isSmall, hlv]
+  have h2 : rv.isSmall = true := by simp [MInt.isSmall, hrv]
+  have hli : ∃ a, lv.int64 = some a := by
+    simp only [MInt.int64, h1, if_true]
+    rw [if_neg (by omega)]
+    split <;> exact ⟨_, rfl⟩
+  have hri : ∃ a, rv.int64 = some a := by
+    simp only [MInt.int64, h2, if_true]
+    rw [if_neg (by omega)]
+    split <;> exact ⟨_, rfl⟩
+  obtain ⟨a, ha⟩ := hli
+  obtain ⟨b, hb⟩ := hri
+  by_cases hk : lt.kind = rt.kind
+  · by_cases hz : rv.small = 0#64 <;> cases op <;>
+      simp [foldOp, evalBin, Op.isCmp, Op.isShift, Op.isArith, hk, Mpa.new, hne, liftP, Mpa.add, Mpa.sub, Mpa.mul,
+        Mpa.div, Mpa.mod, Mpa.and, Mpa.or, Mpa.xor, Mpa.andNot, Mpa.bitwise, Mpa.lsh, Mpa.rsh, Mpa.cmp, hsm, h1, h2,
+        ha, hb, hz, setSmall_eq _ _ hl64, setSmall_eq _ _ hm, constantMpa_ok, bind, Except.bind, Option.bind,
+        negate_small lt lv (by omega) hl64]
+  · cases op <;>
+      simp [foldOp, evalBin, Op.isCmp, Op.isShift, Op.isArith, hk, Mpa.new, hne, liftP, Mpa.lsh, Mpa.rsh, Mpa.cmp,
+        hsm, h1, h2, ha, hb, setSmall_eq _ _ hl64, constantMpa_ok, bind, Except.bind, Option.bind,
+        negate_small lt lv (by omega) hl64]
+
+/-- … but on the large path it does: `uint128(5) + uint128(7)` (and `-`) makes `mpa.Int.Add` build an adder
+whose 128 declared output wires are partly replaced by the zero wire, and `circuits.Compiler.Compile` panics
+"Output already assigned".  The run-time adder gives 12. -/
+theorem C12_crash_wide_witness :
+    foldExpr .add .uint 128 5 7 .pos .pos = .error .panic ∧
+    foldExpr .sub .uint 128 5 7 .pos .pos = .error .panic ∧
+    circuitOpNat .add .uint 128 5 7 = 12 := by
+  decide +kernel
+
+/-- Large path, further witnesses: the divider is SIGNED and as wide as the operands' own sizes
+(`uint128(0x1ffffffffffffffff) / uint128(3)` = 0: the 65-bit dividend is read as -1; `uint128(5)/uint128(0)`
+is 32 ones, not 128); `Cmp` takes the sign from the operand size (`uint100(63) <= uint100(2^81)` is false);
+`Rsh` is logical (`int65(-2^64) >> 1`). -/
+theorem C12_wide_witnesses :
+    (foldExpr .div .uint 128 0x1ffffffffffffffff 3 .pos .pos >>= retSeen .uint 128) = .ok 0 ∧
+    circuitOpNat .div .uint 128 0x1ffffffffffffffff 3 = 0xaaaaaaaaaaaaaaaa ∧
+    (foldExpr .div .uint 128 5 0 .pos .pos >>= retSeen .uint 128) = .ok 4294967295 ∧
+    circuitOpNat .div .uint 128 5 0 = 2 ^ 128 - 1 ∧
+    (foldExpr .le .uint 100 63 (2 ^ 81) .pos .pos >>= retSeen .bool 1) = .ok 0 ∧
+    circuitOpNat .le .uint 100 63 (2 ^ 81) = 1 ∧
+    (foldExpr .shr .int 65 (-(2 ^ 64)) 1 .neg .pos >>= retSeen .int 65) = .ok (2 ^ 63) ∧
+    circuitOpNat .shr .int 65 (-(2 ^ 64)) 1 = 2 ^ 64 + 2 ^ 63 := by
+  decide +kernel
 
 end Mpc
